@@ -484,7 +484,7 @@ class ModelLoader(object):
         return t
 
     def t_RELID(self, t):
-        r'R[0-9]+'
+        r'R[0-9]+(?![\w])'
         t.endlexpos = t.lexpos + len(t.value)
         return t
 
@@ -703,6 +703,7 @@ class ModelLoader(object):
                    | ON
                    | TRUE
                    | FALSE
+                   | RELID
         '''
         p[0] = p[1]
         
